@@ -483,6 +483,11 @@ impl DictionaryCompressor {
                 // This is LZ77-style back-reference compression
                 // offset = distance back from current position
                 // length = number of bytes to copy
+                // (the compressor never emits a match longer than max_match_length; a larger value is
+                // corruption and would otherwise expand 9 input bytes into up to 4 GiB of output)
+                if length > self.max_match_length {
+                    return Err(ZiporaError::invalid_data("Match length exceeds maximum"));
+                }
                 if offset == 0 || result.len() < offset as usize {
                     return Err(ZiporaError::invalid_data("Invalid back-reference offset"));
                 }
@@ -795,6 +800,9 @@ impl OptimizedDictionaryCompressor {
                 ]) as usize;
                 pos += 4;
 
+                if length > self.max_match_length {
+                    return Err(ZiporaError::invalid_data("Match length exceeds maximum"));
+                }
                 if offset == 0 || result.len() < offset as usize {
                     return Err(ZiporaError::invalid_data("Invalid back-reference offset"));
                 }
